@@ -645,7 +645,7 @@ impl XmlNode {
             XmlNode::EntityReference(v) => v.inner().order(),
             XmlNode::Namespace(v) => v.namespace.borrow().order(),
             XmlNode::Notation(_) => 0,
-            XmlNode::PI(_) => 0,
+            XmlNode::PI(v) => v.pi.borrow().order(),
             XmlNode::ExpandedText(v) => v.data[0].order(),
             XmlNode::Text(v) => v.data.borrow().order(),
         }
